@@ -19,6 +19,10 @@ Definition rdb_check (r : rdb) (i : Z) : Z :=
 
 Definition mask128 (x : N) : N := (x mod 2 ^ 128)%N.
 
+(* v128_left_shift: "if (shift > 127) set to zero", else the word loop = N.shiftr *)
+Definition v128_shift (x : N) (shift : Z) : N :=
+  if 127 <? shift then 0%N else N.shiftr x (Z.to_N shift).
+
 Definition rdb_add (r : rdb) (i : Z) : Z * rdb :=
   if i <? wstart r then (st_replay_fail, r)
   else
@@ -28,7 +32,7 @@ Definition rdb_add (r : rdb) (i : Z) : Z * rdb :=
     else
       let d := u32 (delta - (rdb_bits_in_bitmask_c - 1)) in
       (st_ok, {| wstart := u32 (wstart r + d);
-                 bitmask := N.setbit (N.shiftr (bitmask r) (Z.to_N d))
+                 bitmask := N.setbit (v128_shift (bitmask r) d)
                                      (Z.to_N (rdb_bits_in_bitmask_c - 1)) |}).
 
 Definition rdb_incr (r : rdb) : Z * rdb :=
